@@ -587,6 +587,7 @@ func registerOverrides(e *Engine) {
 	})
 
 	registerSync(e)
+	registerSyncMap(e)
 	registerEnv(e)
 }
 
